@@ -1,11 +1,13 @@
 from check import Job
 EXPLANATION = 'the framing of network/SessionManager.cpp with the sockets modelled: send_encrypted emits nonce || big-endian length || ChaCha20 ciphertext for every payload within the limit and nothing above 1 MiB; receive_loop hands every frame to the handler once, byte for byte and in order, and an announced length above 1 MiB ends the session without reading the body'
 ASSUMPTIONS = ['network/SessionManager.cpp is included whole; recv/send/close/shutdown are the harness (recv plays back the frames, returns 0 at the end); all std::cerr / std::ostringstream logging goes to a sink; the reader threads, accept loop, handshake exchange and TCP delivery/ordering itself are NOT encoded',
-               'SessionManager::send has the same framing code as send_encrypted but needs a registered session; only send_encrypted is driven on the sender side',
+               'setsockopt(SO_RCVTIMEO) is modelled for the accepted-* jobs: while a receive timeout is armed, recv() may fail with EAGAIN at any point after the handshake (the peer pausing longer than the timeout); disarmed, recv() waits', 'SessionManager::send has the same framing code as send_encrypted but needs a registered session; only send_encrypted is driven on the sender side',
                'payload lengths 0..3 symbolic bytes (quick) / up to 70 (thorough), 1-2 frames, symbolic key and nonces; "fresh nonce" is represented by the nonce being whatever std::random_device returns (symbolic)']
 def jobs(tier):
     out = [Job('send-len%d' % n, 'session.cpp', 'h_c14_send', [n], reach=['sent'], stream_sink=True, timeout=1500, bounds='payload %d B' % n) for n in ((0, 1, 3) if tier == 'quick' else (0, 1, 3, 63, 64, 65, 70))]
     out += [Job('send-oversize-%d' % e, 'session.cpp', 'h_c14_send_oversize', [e], reach=['refused'], stream_sink=True, timeout=1500, bounds='payload of 2^20 + %d bytes' % e) for e in (1, 4096)]
     for nf, ln, tr in (((1, 2, 0), (2, 1, 0), (1, 1, 1), (0, 0, 1)) if tier == 'quick' else ((1, 0, 0), (1, 2, 0), (2, 1, 0), (2, 3, 1), (1, 1, 1), (0, 0, 1), (1, 65, 0))):
         out.append(Job('recv-f%d-l%d-t%d' % (nf, ln, tr), 'session.cpp', 'h_c14_receive', [nf, ln, tr], reach=['received'], stream_sink=True, timeout=1500, bounds='%d frames of %d B%s' % (nf, ln, ', then an oversized length field' if tr else '')))
+    for nf, ln in (((2, 1),) if tier == 'quick' else ((1, 0), (2, 1), (3, 2))):
+        out.append(Job('accepted-f%d-l%d' % (nf, ln), 'session.cpp', 'h_c14_accepted', [nf, ln], reach=['accepted-session'], stream_sink=True, timeout=1500, bounds='inbound session: read_handshake_payload with its 2000 ms timeout, then %d frames of %d B with arbitrary pauses (receive timeout modelled)' % (nf, ln)))
     return out
